@@ -352,3 +352,105 @@ impl SubCheck for TsSub {
         }
     }
 }
+
+// ---------------------------------------------------------------------------
+// TaskSet, sequential, with resize (BroadcastFuture::new resizes the set to the
+// number of accepting connections of every broadcast)
+
+#[derive(Clone, Debug, Serialize, Deserialize)]
+pub(crate) enum TsOp {
+    /// discard what is scheduled, then set the number of active tasks (as a new broadcast does)
+    Resize(u8),
+    /// wake task i (i taken modulo the number of active tasks) through its waker
+    Wake(u8),
+    /// take the scheduled tasks
+    Take,
+}
+
+#[derive(Clone, Debug, Serialize, Deserialize)]
+pub(crate) struct TsSeqCase {
+    pub initial: u8,
+    pub ops: Vec<TsOp>,
+}
+
+pub(crate) struct TsSeqSub;
+
+impl SubCheck for TsSeqSub {
+    type Case = TsSeqCase;
+    fn name(&self) -> &'static str {
+        "c14-taskset-seq"
+    }
+    fn substrate(&self) -> &'static str {
+        "sequential-api"
+    }
+    fn strategy(&self) -> BoxedStrategy<TsSeqCase> {
+        let op = prop_oneof![2 => (0u8..9).prop_map(TsOp::Resize), 6 => (0u8..9).prop_map(TsOp::Wake), 3 => Just(TsOp::Take)];
+        (0u8..6, proptest::collection::vec(op, 1..40))
+            .prop_map(|(initial, ops)| TsSeqCase { initial, ops })
+            .boxed()
+    }
+    fn eval(&self, c: &TsSeqCase) -> Verdict {
+        super::note_case("C14", self.name(), c);
+        let r = std::panic::catch_unwind(std::panic::AssertUnwindSafe(|| {
+            let sink = WakeSink::new();
+            let mut set = TaskSet::with_len(sink.source(), c.initial as usize);
+            let mut count = c.initial as usize;
+            let mut scheduled: Vec<usize> = Vec::new(); // model: distinct active indices woken since the last take/discard
+            let (mut shrink_then_grow, mut max_seen, mut shrunk) = (false, count, false);
+            for (k, op) in c.ops.iter().enumerate() {
+                match op {
+                    TsOp::Resize(n) => {
+                        set.discard_scheduled();
+                        scheduled.clear();
+                        let n = *n as usize;
+                        if n < count {
+                            shrunk = true;
+                        }
+                        if shrunk && n > max_seen {
+                            shrink_then_grow = true;
+                        }
+                        max_seen = max_seen.max(n);
+                        set.resize(n);
+                        count = n;
+                    }
+                    TsOp::Wake(i) => {
+                        if count > 0 {
+                            let i = *i as usize % count;
+                            set.waker_of(i).wake_by_ref();
+                            if !scheduled.contains(&i) {
+                                scheduled.push(i);
+                            }
+                        }
+                    }
+                    TsOp::Take => {
+                        let mut got: Vec<usize> = match set.take_scheduled(1) {
+                            Some(it) => it.collect(),
+                            None => Vec::new(),
+                        };
+                        let mut dup = got.clone();
+                        dup.sort();
+                        dup.dedup();
+                        if dup.len() != got.len() {
+                            panic!("ORACLE index-yielded-twice|op#{}: take_scheduled yielded {:?}", k, got);
+                        }
+                        got.sort();
+                        let mut exp = scheduled.clone();
+                        exp.sort();
+                        if got != exp {
+                            panic!("ORACLE scheduled-set-mismatch|op#{}: {} active tasks, woken since the last take: {:?}, take_scheduled yielded {:?}", k, count, exp, got);
+                        }
+                        scheduled.clear();
+                    }
+                }
+            }
+            shrink_then_grow
+        }));
+        match r {
+            Ok(stg) => Verdict::pass(stg, if stg { vec!["shrunk-then-grown-beyond-previous-maximum"] } else { vec![] }),
+            Err(e) => {
+                let (clause, detail) = super::split_panic(&super::panic_text(e));
+                ufail(&clause, detail)
+            }
+        }
+    }
+}
